@@ -1,4 +1,6 @@
 import ZorgVerif.Lemmas.Zo
+import ZorgVerif.Model.NoteText
+import ZorgVerif.Gen.FileLexer
 /-!
 # C12 — A note's text form compiles back to the same note
 `Note.to_string()` writes `kind-char [" " priority] " " body.strip() "\n"` (priority only for todos that are
@@ -51,5 +53,16 @@ theorem C12_done_priority_counterexample :
 stripped body disappears again, and stripping is idempotent -/
 theorem C12_body_round_trip (b : Str) : strip (' ' :: strip b) = strip b ∧ strip (strip b) = strip b :=
   ⟨strip_space_strip b, strip_strip b⟩
+
+/-! Non-vacuity: a rendered note through the generated lexer and the compiler model (kernel-evaluated): a blocked todo keeps
+kind, priority and body; a done one drops the priority word and reads back with the default -/
+private def roundTrip (kindChar : Char) (prio : Option String) (done : Bool) (body : String) : List (NoteKind × Option String × String) :=
+  let text := "# T\n\n".toList ++ NoteText.noteToString kindChar (prio.map String.toList) done body.toList
+  match compileToks ⟨2024, 6, 15⟩ "P3".toList ((lex Gen.FileLexer.rules text).filter (·.name != "<err>")) with
+  | .ok r => r.notes.map (fun (n : Note) => (n.kind, n.priority.map Str.toStr, Str.toStr n.body))
+  | .error _ => []
+
+example : roundTrip '<' (some "P1") false "240101#00 blocked #tag body" = [(.blockedTodo, some "P1", "240101#00 blocked #tag body")] := by decide +kernel
+example : roundTrip 'x' (some "P1") true "  240101#00 done body \n" = [(.closedTodo, some "P3", "240101#00 done body")] := by decide +kernel
 
 end ZorgVerif.C12
